@@ -278,6 +278,61 @@ tunnel-group 10.0.0.1 type ipsec-l2l
 tunnel-group 10.0.0.1 ipsec-attributes
  peer-id-validate req
 `),
+		// known findings together with something else that must still be judged (docs/ORACLE_AUDIT.md item 8):
+		// a crypto map shared with an unknown interface AND a hand-made group-policy that must stay
+		mk("shared-crypto-map-and-manual-group-policy", `
+interface Ethernet0/3
+ nameif mgmt
+access-list crypto-outside-1-DRC-0 extended permit ip 10.1.1.0 255.255.255.0 10.99.1.0 255.255.255.0
+crypto ipsec ikev1 transform-set Trans1-DRC-0 esp-3des esp-md5-hmac
+crypto map crypto-outside 1 match address crypto-outside-1-DRC-0
+crypto map crypto-outside 1 set peer 10.0.0.1
+crypto map crypto-outside 1 set ikev1 transform-set Trans1-DRC-0
+crypto map crypto-outside interface outside
+crypto map crypto-outside interface mgmt
+group-policy MANUAL-GP internal
+group-policy MANUAL-GP attributes
+ vpn-idle-timeout 30
+`, `
+access-list crypto-outside-1 extended permit ip 10.1.1.0 255.255.255.0 10.99.1.0 255.255.255.0
+crypto ipsec ikev1 transform-set Trans1 esp-3des esp-md5-hmac
+crypto map crypto-outside 1 match address crypto-outside-1
+crypto map crypto-outside 1 set peer 10.0.0.1
+crypto map crypto-outside 1 set ikev1 transform-set Trans1
+crypto map crypto-outside interface outside
+`),
+		// a duplicate peer in the target AND a user whose attributes differ
+		mk("duplicate-peer-and-user-changed", `
+access-list crypto-outside-1-DRC-0 extended permit ip 10.1.1.0 255.255.255.0 10.99.1.0 255.255.255.0
+access-list crypto-outside-2-DRC-0 extended permit ip 10.1.2.0 255.255.255.0 10.99.2.0 255.255.255.0
+crypto ipsec ikev1 transform-set Trans1-DRC-0 esp-3des esp-md5-hmac
+crypto map crypto-outside 1 match address crypto-outside-1-DRC-0
+crypto map crypto-outside 1 set peer 10.0.0.1
+crypto map crypto-outside 1 set ikev1 transform-set Trans1-DRC-0
+crypto map crypto-outside 2 match address crypto-outside-2-DRC-0
+crypto map crypto-outside 2 set peer 10.0.0.1
+crypto map crypto-outside 2 set ikev1 transform-set Trans1-DRC-0
+crypto map crypto-outside interface outside
+username user1@example.com nopassword
+username user1@example.com attributes
+ service-type remote-access
+ vpn-idle-timeout 30
+`, `
+access-list crypto-outside-1 extended permit ip 10.1.1.0 255.255.255.0 10.99.1.0 255.255.255.0
+access-list crypto-outside-2 extended permit ip 10.1.2.0 255.255.255.0 10.99.2.0 255.255.255.0
+crypto ipsec ikev1 transform-set Trans1 esp-3des esp-md5-hmac
+crypto map crypto-outside 1 match address crypto-outside-1
+crypto map crypto-outside 1 set peer 10.0.0.1
+crypto map crypto-outside 1 set ikev1 transform-set Trans1
+crypto map crypto-outside 2 match address crypto-outside-2
+crypto map crypto-outside 2 set peer 10.0.0.1
+crypto map crypto-outside 2 set ikev1 transform-set Trans1
+crypto map crypto-outside interface outside
+username user1@example.com nopassword
+username user1@example.com attributes
+ service-type remote-access
+ vpn-idle-timeout 60
+`),
 		// the target has no VPN part at all: everything is removed in an order the device accepts
 		mk("everything-removed", `
 access-list vpn-filter-DRC-0 extended permit ip host 10.3.4.1 10.1.1.0 255.255.255.0
